@@ -606,7 +606,13 @@ func (c C02) evaluate(sc *C02Scenario) *sim.Outcome {
 				break
 			}
 			for _, er2 := range again.Extracts {
-				if k2, _, got2 := memOver(er2, again.TreeBytes); er2.Ext == er.Ext && er2.Path == er.Path && k2 == kind {
+				k2, _, got2 := memOver(er2, again.TreeBytes)
+				if kind == "process-growth" && k2 == "" && er2.TotalMB > 1024 {
+					// the runtime keeps the memory of the first run: the process does not grow again,
+					// but the same amount is allocated again
+					k2, got2 = kind, er2.TotalMB
+				}
+				if er2.Ext == er.Ext && er2.Path == er.Path && k2 == kind {
 					out.Violate("mem-budget", "mem-budget:"+kind+":"+er.Ext, "%s run: Extract(%s, %s): %s = %d MiB (again: %d MiB), budget %d MiB, for a tree of %d bytes",
 						r.which, er.Ext, er.Path, kind, got, got2, lim, r.o.TreeBytes)
 				}
